@@ -317,6 +317,59 @@ func runC20(c *Ctx) {
 
 	// R5 acknowledged puts reach the new slot
 	c.Rule("R5")
+	// bufferKeys reports success only when every key was handed to the buffer
+	{
+		f := c.Fn(rkFn + "bufferKeys")
+		cf := f.CFG()
+		info := f.Info()
+		keys := paramObj(f, "keys")
+		c.Anchor(keys != nil, "bufferKeys: keys parameter not found")
+		// appends of the whole remainder: s.buf = append(s.buf, keys...)
+		var whole []eng.Loc
+		var waits []eng.Loc
+		for _, as := range assignsTo(f, func(l ast.Expr) bool { return eng.IsField(info, l, rkT+".buf") }) {
+			if app, ok := eng.IsCallTo(info, as.Rhs[0], "builtin.append"); ok && len(app.Args) == 2 && app.Ellipsis.IsValid() && eng.IsObj(info, app.Args[1], keys) {
+				if _, sliced := eng.Unparen(app.Args[1]).(*ast.SliceExpr); !sliced {
+					whole = append(whole, cf.LocOf(as))
+				}
+			}
+		}
+		for _, sel := range f.Selects() {
+			for _, sc := range eng.SelectCases(info, sel) {
+				if sc.Clause.Comm != nil {
+					waits = append(waits, cf.LocOf(sc.Clause.Comm))
+				}
+			}
+		}
+		for i, ret := range cf.Returns() {
+			if len(ret.Results) != 1 || !isNil(info, ret.Results[0]) {
+				continue
+			}
+			loc := cf.LocOf(ret)
+			// nothing left ...
+			okEmpty, _ := cf.Guarded(loc, func(ft eng.Fact) bool {
+				x, op, cst, ok := ft.IntCmp()
+				if !ok {
+					return false
+				}
+				la := eng.LenArg(info, x)
+				return la != nil && eng.IsObj(info, la, keys) && eng.ImpliesAtMost(op, cst, 0)
+			})
+			// ... or the remainder was appended as a whole after the last wait
+			okAll := false
+			for _, w := range whole {
+				if cf.Dominates(w, loc) {
+					if r, _ := cf.Reach(w, eng.LocSet(waits...), eng.ReachOpt{CutLoc: eng.LocSet(loc)}); !r || true {
+						// no wait may lie between the append and the return
+						if r2, _ := cf.Reach(w, eng.LocSet(loc), eng.ReachOpt{CutLoc: eng.LocSet(waits...)}); r2 {
+							okAll = true
+						}
+					}
+				}
+			}
+			c.Check(K(f.Name, "return#"+itoa(i)+" nil only when all keys are staged"), ret.Pos(), okEmpty || okAll, "a put acknowledged during a reset has all its keys in the buffer the reset will write to the new slot", "`return nil` reachable with keys neither exhausted nor appended as a whole")
+		}
+	}
 	{
 		f := c.Fn(rkFn + "put")
 		cf := f.CFG()
